@@ -220,6 +220,19 @@ def random_reciprocal_links(rng, nfaces, axes=("X", "Y"), p_link=0.7, allow_swap
     return table
 
 
+def sparsify(rng, table, p=0.7):
+    """Same links, written the way hand-made tables are: axis entries whose two
+    links are both None are (mostly) left out, faces may list one axis only."""
+    out = {}
+    for f, axes in table.items():
+        out[f] = {}
+        for a, (l, r) in axes.items():
+            if l is None and r is None and rng.random() < p:
+                continue
+            out[f][a] = [l, r]
+    return out
+
+
 def tiling_links(kx, ky, periodic_x=False, periodic_y=False):
     """Kx x Ky tiling of faces, plain same-axis links."""
     table = {}
